@@ -57,6 +57,26 @@ class H:
             self.cycle_while_stopped = (what, self.log.now())
 
 
+def instrument_gen(cls, h):
+    """like instrument(), but run() is a Tornado coroutine: what start() gets back is a Future"""
+    from tornado import gen
+
+    class G(cls):
+        @gen.coroutine
+        def run(self):
+            h.enter()
+            try:
+                yield super().run()
+            finally:
+                h.exit()
+
+        async def _run(self):
+            h.cycle()
+            await super()._run()
+    G.__name__ = cls.__name__
+    return G
+
+
 def instrument(cls, h):
     class I(cls):
         async def run(self):
@@ -100,7 +120,7 @@ def case_strategy(draw, tier="quick"):
         acts_flat = [["start" + ("!" if a[0].endswith("!") else "")] if a[0].rstrip("!") == "stop"
                      else a for a in acts_flat]
     return {"kind": kind, "interval": iv, "mode": mode, "n": draw(st.integers(3, 8)),
-            "listlike": listlike,
+            "listlike": listlike, "gen_run": kind == "periodic" and draw(st.booleans()),
             "ctor_start": draw(st.sampled_from([False, False, True])),
             # positions of the iterable that hold a plain None (an item like any other)
             "none_at": sorted(draw(st.sets(st.integers(0, 8), max_size=2)))
@@ -143,7 +163,8 @@ def execute(case):
                     h.exit()
             src = ServerLike(**kw)
         elif kind == "periodic":
-            src = instrument(from_periodic, h)(produce, poll_interval=case["interval"], **kw)
+            inst = instrument_gen if case.get("gen_run") else instrument
+            src = inst(from_periodic, h)(produce, poll_interval=case["interval"], **kw)
         elif kind == "iterable":
             none_at = set(case.get("none_at", []))
 
@@ -154,7 +175,11 @@ def execute(case):
                     k = produce()
                     yield None if k in none_at else k
             if case.get("listlike"):
-                src = instrument(from_iterable, h)(list(range(case["n"])), **kw)
+                # "the items of its iterable": the list is completed right after the node was
+                # built, before anything can have run
+                live_list = list(range(case["n"] // 2))
+                src = instrument(from_iterable, h)(live_list, **kw)
+                live_list.extend(range(case["n"] // 2, case["n"]))
             else:
                 src = instrument(from_iterable, h)(gen(), **kw)
         elif kind == "q":
